@@ -211,6 +211,7 @@ type DocOpts struct {
 	NoIncluded          bool // leave Included empty (C03 adds through Include)
 	NoErrors            bool
 	PlainSelection      bool // only absent / empty / subset selections (no unknown names, "id", duplicates)
+	MixedWrapCol        bool // a WrapperCollection may receive wrappers of another struct type (Add accepts any *Wrapper)
 }
 
 // Selection draws a field selection entry for a type: ok=false means "no entry".
@@ -341,6 +342,14 @@ func Document(t *rapid.T, o DocOpts) *DocCase {
 		ts := pick("ptype")
 		typ := SoftTypeOf(ts)
 		col := &jsonapi.SoftCollection{}
+
+		if nmem == 0 && rapid.Bool().Draw(t, "untyped") {
+			// An empty collection whose type was never set is a valid
+			// (empty) primary data too.
+			c.Doc.Data = col
+			break
+		}
+
 		col.SetType(&typ)
 
 		for i := 0; i < nmem; i++ {
@@ -357,7 +366,14 @@ func Document(t *rapid.T, o DocOpts) *DocCase {
 		ts := structTypes[rapid.IntRange(0, len(structTypes)-1).Draw(t, "wtype")]
 		col := jsonapi.WrapCollection(jsonapi.Wrap(reflect.New(ts.GoType).Interface()))
 
+		colType := ts
+
 		for i := 0; i < nmem; i++ {
+			ts := colType
+			if o.MixedWrapCol && len(structTypes) > 1 && rapid.IntRange(0, 2).Draw(t, "mixedwrap") == 0 {
+				ts = structTypes[rapid.IntRange(0, len(structTypes)-1).Draw(t, "wmember")]
+			}
+
 			res := jsonapi.Wrap(reflect.New(ts.GoType).Interface())
 			vals := FillResource(t, res, ts, fmt.Sprintf("p%d", i))
 			key := ts.Name + "\x00" + vals["id"].(string)
@@ -382,7 +398,7 @@ func Document(t *rapid.T, o DocOpts) *DocCase {
 			ids = append(ids, jsonapi.Identifier{Type: pick("itype").Name, ID: IDString(t, "iid", false)})
 		}
 
-		c.Idents = ids
+		c.Idents = append([]jsonapi.Identifier{}, ids...) // the model keeps its own copy (the library may reorder doc.Data in place)
 		c.Doc.Data = ids
 	}
 
